@@ -149,6 +149,9 @@ func TestVerifOrder(t *testing.T) {
 		for k := 0; k < vNonPoolVariants; k++ {
 			snaps = append(snaps, vGenNonPool(r, k))
 		}
+		for k := 0; k < 12; k++ { // one-sided peer lists with different local preferences, every name / listing order
+			snaps = append(snaps, vGenPeerClash(r, k))
+		}
 		for k := 0; k < 8; k++ { // selector grouping, nested L2 node sets, mixed-family pools with a node IP inside
 			snaps = append(snaps, vGenSelGroup(r, 3*k+r.Intn(3)), vGenL2Nested(r, k+8*r.Intn(3)), vGenMixedNode(r, r.Intn(64)))
 		}
@@ -247,6 +250,44 @@ func TestVerifOrder(t *testing.T) {
 				replay["permuted"] = s2
 				out.Fail("toconfig-depends-on-order", fmt.Sprintf("a permutation of the listing changes %s", vDiffPart(base, cfg2)), replay)
 				break
+			}
+		}
+		// (2b) acceptance where the lists reach config.For UNSORTED: config.For itself and the
+		// admission webhooks' validator (config.NewValidator(...).Validate gets the lists in API
+		// server order, the new object last); the verdict must not depend on that order
+		{
+			verdict := func(sn vSnap) (bool, bool) {
+				res := vBuild(sn)
+				_, e1 := vFor(res, val)
+				var pl metallbv1beta1.IPAddressPoolList
+				var peers metallbv1beta2.BGPPeerList
+				var bfds metallbv1beta1.BFDProfileList
+				var bgp metallbv1beta1.BGPAdvertisementList
+				var l2 metallbv1beta1.L2AdvertisementList
+				var cm metallbv1beta1.CommunityList
+				var nl corev1.NodeList
+				pl.Items, peers.Items, bfds.Items, bgp.Items, l2.Items, cm.Items, nl.Items = res.Pools, res.Peers, res.BFDProfiles, res.BGPAdvs, res.L2Advs, res.Communities, res.Nodes
+				e2 := vValidatorErr(val, &pl, &peers, &bfds, &bgp, &l2, &cm, &nl)
+				return e1 == nil, e2 == nil
+			}
+			f0, w0 := verdict(s)
+			if f0 {
+				out.Stat("configfor_unsorted_accepted", 1)
+			} else {
+				out.Stat("configfor_unsorted_rejected", 1)
+			}
+			for k := 0; k < 6; k++ {
+				s2 := vShuffle(s, r)
+				f1, w1 := verdict(s2)
+				out.Stat("oracle_evaluations", 2)
+				if f1 != f0 {
+					out.Fail("configfor-accept-depends-on-order", fmt.Sprintf("config.For on the lists as given: accepted=%v, on a permutation of them: accepted=%v", f0, f1), map[string]any{"snap": s, "permuted": s2})
+					break
+				}
+				if w1 != w0 {
+					out.Fail("validator-accept-depends-on-order", fmt.Sprintf("the admission webhooks' validator (config.NewValidator): accepted=%v on the lists as given, %v on a permutation", w0, w1), map[string]any{"snap": s, "permuted": s2})
+					break
+				}
 			}
 		}
 		// (3) sortedCopy itself
@@ -701,4 +742,22 @@ func vObjects(res config.ClusterResources) []client.Object {
 		objs = append(objs, cm)
 	}
 	return objs
+}
+
+func vFor(res config.ClusterResources, val config.Validate) (cfg *config.Config, err error) {
+	defer func() {
+		if p := recover(); p != nil {
+			cfg, err = nil, fmt.Errorf("panic: %v", p)
+		}
+	}()
+	return config.For(res, val)
+}
+
+func vValidatorErr(val config.Validate, lists ...client.ObjectList) (err error) {
+	defer func() {
+		if p := recover(); p != nil {
+			err = fmt.Errorf("panic: %v", p)
+		}
+	}()
+	return config.NewValidator(val).Validate(lists...)
 }
